@@ -1,26 +1,59 @@
 (* C20 Steady-state resource use does not grow with the number of events.
-   Descriptor part (theorems from FdProofs when available): operations are
-   descriptor-neutral under every oracle.  Memory is not expressible in the
-   model (objects are values); it is measured by the harness (wrapped
-   allocator, soak x1/x10/x100). *)
-From K Require Import Str World Progs Handler.
+   Descriptor part: theorems for every oracle.  [fd_count w] is the number of
+   descriptors acquired minus released according to the call log (an open that
+   returned a descriptor counts +1, every close -1); [held h] is what a loaded
+   handler owns (queue directory + journal).  Memory is not expressible in the
+   model (objects are values); it is measured on the implementation by the check
+   (wrapped allocator, the same round x1 / x10 / x100). *)
+From K Require Import Str World Progs Handler FdProofs.
+Local Open Scope Z_scope.
 
-(* the in-memory multiset of queued paths has exactly one element per queue
-   entry: what the handler keeps is bounded by what is pending, not by how many
-   events were handled *)
-Theorem C20_bag_tracks_queue_push : forall (path : str) (meta : N) (q : qmem) (o : oracle) (w : world) (q' : qmem) (w' : world),
-  q_push path meta q o w = (Some q', w') ->
-  (q_size q' = (q_size q + 1)%N /\ length (q_bag q') = S (length (q_bag q))) \/
-  (q_size q' = q_size q /\ q_bag q' = q_bag q).
+(* a timeout pass, whatever fails inside it, releases every descriptor it acquired *)
+Theorem C20_timeout_neutral : forall (rev : bool) (h : handler) (o : oracle) (w : world) r (w' : world),
+  handle_timeout rev h o w = (Some r, w') ->
+  fd_count w' = fd_count w /\ h_journal (snd r) = h_journal h.
+Proof. intros. eapply handle_timeout_fd; eassumption. Qed.
+Print Assumptions C20_timeout_neutral.
+
+Theorem C20_exec_neutral : forall (pid : N) (path : str) (h : handler) (o : oracle) (w : world) (h' : handler) (w' : world),
+  handle_open_exec pid path h o w = (Some h', w') ->
+  fd_count w' = fd_count w /\ h_journal h' = h_journal h.
+Proof. intros. eapply handle_open_exec_fd; eassumption. Qed.
+Print Assumptions C20_exec_neutral.
+
+(* any number of events: the count does not depend on how many were handled *)
+Theorem C20_events_neutral : forall (es : list FdProofs.event) (h : handler) (o : oracle) (w : world) (h' : handler) (w' : world),
+  h_cfg_path h = None ->
+  handle_events es h o w = (Some h', w') ->
+  fd_count w' = fd_count w /\ h_journal h' = h_journal h.
+Proof. intros. eapply handle_events_no_cfg_fd; eassumption. Qed.
+Print Assumptions C20_events_neutral.
+
+(* with configuration reloads: what the handler holds moves with the count when
+   the reload succeeded; a failed reload (the daemon then stops) can leave at most
+   one descriptor per write event behind *)
+Theorem C20_write_reload : forall (pid : N) (path : str) (nc : option config) (h : handler) (o : oracle) (w : world) (h' : handler) (w' : world),
+  handle_close_write pid path nc h o w = (Some h', w') ->
+  (tr_ok (w_tr w') = true -> fd_count w' - held h' = fd_count w - held h) /\
+  0 <= (fd_count w' - held h') - (fd_count w - held h) <= 1.
+Proof. intros. eapply handle_close_write_fd; eassumption. Qed.
+Print Assumptions C20_write_reload.
+
+(* loading acquires exactly what the handler then holds; releasing gives it back *)
+Theorem C20_load_and_release : forall (cfg : config) (cp : option str) (cpl : nat) (o : oracle) (w : world) (h : handler) (w' : world),
+  load_handler cfg cp cpl o w = (Some (Some h), w') ->
+  fd_count w' = fd_count w + held h /\
+  forall o2 r w2, free_handler h o2 w' = (Some r, w2) -> fd_count w2 = fd_count w.
 Proof.
-  intros path meta q o w q' w' H. unfold q_push, when_ok, bind, is_ok, get_tr, ret_ in H.
-  simpl in H. destruct (tr_ok (w_tr w)).
-  - unfold k_symlinkat, bind, get_clock in H. simpl in H.
-    unfold sys_unit, sys in H.
-    destruct (o (w_n w)); simpl in H;
-      try (destruct (fs_symlink _ _ _ _) as [[e|] f']; simpl in H);
-      try (unfold throw_errno, throw, mod_tr, bind, get_tr, set_tr in H; simpl in H);
-      inversion H; subst; simpl; auto.
-  - inversion H; subst. auto.
+  intros cfg cp cpl o w h w' E. destruct (load_handler_fd cfg cp cpl o w h w' E) as [_ H2].
+  split; [exact H2|]. intros o2 r w2 E2. pose proof (free_handler_fd h o2 w' r w2 E2) as H3.
+  unfold held, jz in H2. destruct (h_journal h); lia.
 Qed.
-Print Assumptions C20_bag_tracks_queue_push.
+Print Assumptions C20_load_and_release.
+
+(* a whole session: load, any events, release *)
+Theorem C20_session : forall (cfg : config) (cpl : nat) (es : list FdProofs.event) (o : oracle) (w : world) (b : bool) (w' : world),
+  session cfg cpl es o w = (Some b, w') ->
+  if b then fd_count w' = fd_count w else fd_count w <= fd_count w' <= fd_count w + 1.
+Proof. intros. eapply session_fd; eassumption. Qed.
+Print Assumptions C20_session.
